@@ -64,6 +64,13 @@ func main() {
 				emit(w, runDebugPair(c))
 			}
 		}
+	case "history":
+		rng := rand.New(rand.NewSource(*seed))
+		for i := 0; i < *n; i++ {
+			for _, l := range runHistory(rng.Int63(), 40) {
+				fmt.Fprintln(w, l)
+			}
+		}
 	case "conc":
 		for _, l := range runConc(*seed, *n) {
 			fmt.Fprintln(w, l)
